@@ -1,6 +1,8 @@
 """C01 - daily soil-water balance closes (kind B, exploration)."""
 from .common import shallow_pond_regime, SHALLOW_POND_PROFILE, std_case, std_run, basin_regime, BASIN_PROFILE, hardpan_regime, HARDPAN_PROFILE, STATE_MEASURE  # noqa: F401
 from ..monitors import mon_c01
+from ..domain import soil_layer_table
+from .common import reclamp_cn
 
 ID = "C01"
 LEVEL = "exploration"
@@ -22,6 +24,25 @@ def gen_case(rng, tier, idx):
     if idx % 8 == 3:
         # a series of storms each leaving a pond of a few millimetres behind empty bunds under a stressed canopy
         return shallow_pond_regime(rng, std_case(rng, dict(PROFILE, **SHALLOW_POND_PROFILE)))
+    if idx % 8 == 7:
+        # net irrigation on a profile whose compartments inside the planting-day root zone have unequal thicknesses, starting
+        # (each season) below the net-irrigation threshold: the pre-irrigation on the first day of a season fills compartments
+        # of different thickness, and the depth it reports has to be the depth stored
+        case = std_case(rng, dict(PROFILE, irr_methods=[4], custom_soil_p=0.0, gw=0.0, dz_p=0.0, sat_start_p=0.0, n_seasons=[1, 2, 2, 3],
+                                  bunds=0.1, reactive_p=0.0))
+        spec = case["spec"]
+        if spec["soil"]["type"] not in ("ac_TunisLocal",):
+            top = rng.choice([[0.05, 0.05, 0.1, 0.1], [0.05] * 4 + [0.1], [0.02, 0.03, 0.05, 0.1, 0.1], [0.1, 0.05, 0.05, 0.1], [0.15, 0.05, 0.1]])
+            rest = rng.choice([[0.1] * 10, [0.1] * 18, [0.1, 0.1] + [0.2] * 6])
+            spec["soil"]["kwargs"] = dict(spec["soil"].get("kwargs") or {}, dz=list(top) + list(rest))
+            reclamp_cn(spec)
+        spec["irr"]["kwargs"]["NetIrrSMT"] = rng.choice([50, 70, 80, 90, 100])
+        if rng.random() < 0.8:
+            spec["iwc"] = (rng.choice([{"wc_type": "Prop", "method": "Layer", "depth_layer": [1], "value": ["WP"]},
+                                       {"wc_type": "Pct", "method": "Layer", "depth_layer": [1], "value": [rng.choice([0, 10, 30, 50])]}])
+                           if len(soil_layer_table(spec["soil"])) == 1 else spec["iwc"])
+        case["controller"] = None
+        return case
     if idx % 4 == 1:
         # flooded basin whose management changes at harvest (bunds lowered or removed) with the off-season simulated
         return basin_regime(rng, std_case(rng, dict(PROFILE, **BASIN_PROFILE)))
